@@ -33,8 +33,10 @@ func Harness_C05_newVerifier() {
 		pk = &rsa.PublicKey{N: n, E: 65537}
 		compliant = bits >= 2048
 	case 1:
-		curves := []elliptic.Curve{elliptic.P224(), elliptic.P256(), elliptic.P384(), elliptic.P521()}
-		ci := vChoice("curve", 4)
+		// the NIST curves, and a 256-bit curve that is not P-256 (brainpoolP256, secp256k1, ... are such)
+		other256 := &elliptic.CurveParams{Name: "other-256", BitSize: 256, P: big.NewInt(23), N: big.NewInt(29), B: big.NewInt(1), Gx: big.NewInt(1), Gy: big.NewInt(2)}
+		curves := []elliptic.Curve{elliptic.P224(), elliptic.P256(), elliptic.P384(), elliptic.P521(), other256}
+		ci := vChoice("curve", 5)
 		pk = &ecdsa.PublicKey{Curve: curves[ci], X: big.NewInt(1), Y: big.NewInt(2)}
 		compliant = ci == 1
 	case 2:
